@@ -62,7 +62,19 @@ CHECKS.update({
                 text="For each (RAM units, costs) group the closed-form period m is computed exactly and every stream of the group must write DISK checkpoints exactly at 0, m, 2m, ... in the forward sweep, never later, read each once, and reverse every segment with the memory-only optimum."),
 })
 
-PENDING = ["C10", "C15"]
+CHECKS.update({
+    "C10": dict(design_ref="DESIGN.md section 4 C10, 3.4", engine="hypothesis-stateful",
+                note="Trusted base: the 60-line reference model in vlib/props/c10.py (told / max_n / forward position), Hypothesis rule-based state machine generation and shrinking. Histories bounded by stateful_step_count (40/80).",
+                technique="model-based stateful testing: Hypothesis RuleBasedStateMachine over next()/finalize(k)/observer histories against a reference model, plus a twin object that receives only the accepted calls (differential)",
+                text="Call histories of next(), finalize(k) (k from -1,0,1,told-1,told,told+1,max_n,random) and observer reads on one object of any class: outcome (success/ValueError/RuntimeError), post-state and 'next action is EndForward' per the reference model; rejected calls must leave observers and the subsequent stream (vs. twin) unchanged."),
+    "C15": dict(design_ref="DESIGN.md section 4 C15, 3.4", engine="hypothesis-stateful",
+                note="Trusted base: vlib/golden.py (fresh interpreter, forked pristine child per config) as the oracle; every history itself runs in a child forked from a pristine worker. Bounded histories (40/80 rules, <=6 live objects).",
+                technique="model-based stateful testing: Hypothesis RuleBasedStateMachine interleaving up to 6 live schedules, observer reads and memo-table pokes; differential against the stream of the same config in a fresh interpreter; delta-debugging minimiser",
+                text="Histories create/advance/observe/poke/finish over up to 6 live objects of all classes; every object's recorded stream must equal the stream the same config produces in a fresh interpreter (prefix-equal if stopped early)."),
+})
+
+PENDING = []
+
 
 NOT_APPLICABLE = [{"property_id": p, "reason": "check designed (DESIGN.md section 4) but not yet built in this commit; property-based testing applies"} for p in PENDING if p not in CHECKS]
 
@@ -75,7 +87,9 @@ HOOKS = {
 }
 
 ENGINES = [
-    {"name": "hypothesis+exhaustive-box", "path": "vlib/", "serves_properties": sorted(CHECKS),
+    {"name": "hypothesis-stateful", "path": "vlib/props/c10.py, vlib/props/c15.py, vlib/golden.py", "serves_properties": ["C10", "C15"],
+     "kind_free_text": "Hypothesis RuleBasedStateMachine (run_state_machine_as_test with seed(VERIF_SEED*1000+shard)), 16 shards"},
+    {"name": "hypothesis+exhaustive-box", "path": "vlib/", "serves_properties": sorted(k for k in CHECKS if k not in ("C10", "C15")),
      "kind_free_text": "Hypothesis 6.168 strategies (seeded by VERIF_SEED) + itertools exhaustive boxes, executed on a 16-process pool; reference executor / independent oracles; deterministic coordinate-descent shrinker"},
 ]
 
